@@ -179,11 +179,13 @@ MEDDLY::prepost_set_mtrel<EOP, ATYPE>
 
     //
     // Do we need to recurse by levels and store level info in the CT?
-    // YES, if the set and relation are both fully-reduced.
-    // (If the set is quasi reduced, we will recurse by levels anyway.)
+    // YES, if the relation is fully-reduced.
+    // (A quasi-reduced set mostly recurses by levels anyway, but it can
+    // still skip levels with an edge to the transparent terminal, which
+    // is a legal, reachable operand for distance functions.)
     // (If the relation is identity-reduced, we can skip levels.)
     //
-    forced_by_levels = arg1->isFullyReduced() && arg2->isFullyReduced();
+    forced_by_levels = arg2->isFullyReduced();
 
     //
     // Build compute table key and result types.
